@@ -53,8 +53,10 @@ LexFrom(src, p, st, state, nested, num, parts) ==
                  ELSE IF c = BT THEN LexFrom(src, p + 1, st, "bt", nested, 0, parts)
                  ELSE IF c = 35 THEN LexFrom(src, p + 1, st, "lc", nested, 0, parts)
                  ELSE IF c = 36 /\ IsDigitC(n) THEN LexFrom(src, p + 1, p + 1, "ph", nested, 0, Append(parts, TextPart(Sub(src, st, p - 1))))
-                 ELSE IF c = 45 /\ n = 45 THEN LexFrom(src, p + 2, st, "lc", nested, 0, parts)
+                 \* -- opens a comment only in front of a blank, a tab, a line end or the end of the text; // always does
+                 ELSE IF c = 45 /\ n = 45 /\ At(src, p + 2) \in {32, 9, 10, 13, -1} THEN LexFrom(src, p + 2, st, "lc", nested, 0, parts)
                  ELSE IF c = 47 /\ n = 42 THEN LexFrom(src, p + 2, st, "bc", nested, 0, parts)
+                 ELSE IF c = 47 /\ n = 47 THEN LexFrom(src, p + 2, st, "lc", nested, 0, parts)
                  ELSE LexFrom(src, p + 1, st, "raw", nested, 0, parts)
            [] state \in {"sq", "dq", "esc"} ->
                  LET q == IF state = "dq" THEN DQ ELSE SQ IN
@@ -69,9 +71,8 @@ LexFrom(src, p, st, state, nested, num, parts) ==
            [] state = "ph" ->
                  IF IsDigitC(c) THEN LexFrom(src, p + 1, st, "ph", nested, num * 10 + (c - 48), parts)
                  ELSE LexFrom(src, p, p, "raw", nested, 0, Append(parts, ArgPart(num)))
-           [] state = "lc" ->
-                 IF c = BS THEN LexFrom(src, IF n = -1 THEN p + 1 ELSE p + 2, st, "lc", nested, 0, parts)
-                 ELSE IF c = NL \/ c = 13 THEN LexFrom(src, p + 1, st, "raw", nested, 0, parts)
+           [] state = "lc" ->   \* a line comment ends at the line feed and nowhere else
+                 IF c = NL THEN LexFrom(src, p + 1, st, "raw", nested, 0, parts)
                  ELSE LexFrom(src, p + 1, st, "lc", nested, 0, parts)
            [] OTHER ->   \* block comment, nesting counted
                  IF c = 47 /\ n = 42 THEN LexFrom(src, p + 2, st, "bc", nested + 1, 0, parts)
@@ -141,6 +142,7 @@ MyTokFrom(src, p, toks) ==
         IN  IF r.ok THEN MyTokFrom(src, r.p, Append(toks, [k |-> "ident", c |-> r.c])) ELSE Append(toks, [k |-> "lexerror"])
     ELSE IF c = 35 THEN MyTokFrom(src, SkipLine(src, p + 1), toks)
     ELSE IF c = 45 /\ n = 45 /\ (IsSpace(At(src, p + 2)) \/ At(src, p + 2) = -1) THEN MyTokFrom(src, SkipLine(src, p + 2), toks)
+    ELSE IF c = 47 /\ n = 47 THEN MyTokFrom(src, SkipLine(src, p + 2), toks)
     ELSE IF c = 47 /\ n = 42 THEN
         LET e == SkipBlock(src, p + 2) IN IF e = -1 THEN Append(toks, [k |-> "lexerror"]) ELSE MyTokFrom(src, e, toks)
     ELSE MyTokFrom(src, p + 1, Append(toks, [k |-> "ch", c |-> c]))
